@@ -1,8 +1,9 @@
 ------------------------------- MODULE Dag_MC -------------------------------
 (***************************************************************************)
-(* The bounded domain of C09: program families over three algorithms in a  *)
-(* fixed topological order a < b < c (references only point backwards, so  *)
-(* every program is acyclic by construction; feedback points forwards).    *)
+(* The bounded domain of C09: program families over three algorithms (and  *)
+(* a small family over four) in a fixed topological order a < b < c (< d): *)
+(* references only point backwards, so every program is acyclic by         *)
+(* construction; feedback points forwards.                                 *)
 (*                                                                         *)
 (* A PROFILE fixes what is not the reference structure: kinds, packages,   *)
 (* state vectors x values of each algorithm, and which state vector /      *)
@@ -27,27 +28,32 @@ Atom(x, gran) == [src |-> NameOf(x), gran |-> gran,
                   val |-> IF gran = "val" THEN x.valt[2] ELSE ""]
 RefSets(x, GG) == { { Atom(x, gran) : gran \in G } : G \in GG }
 
-(* program from a profile, the references declared by 2 on 1, 3 on 1, 3 on 2, and the feedback
-   references fb[i] declared by algorithm i *)
-Mk(prof, r21, r31, r32, fb) ==
-    LET n == [i \in 1..3 |-> NameOf(prof[i])]
-        A == { n[i] : i \in 1..3 }
-        ix(a) == CHOOSE i \in 1..3 : n[i] = a
+(* program from a profile of n algorithms: rf[i] = the references algorithm i declares,
+   fb[i] = its feedback references *)
+MkN(prof, rf, fb) ==
+    LET I == DOMAIN prof
+        n == [i \in I |-> NameOf(prof[i])]
+        A == { n[i] : i \in I }
+        ix(a) == CHOOSE i \in I : n[i] = a
     IN [kind |-> [a \in A |-> prof[ix(a)].kind],
         pkg  |-> [a \in A |-> prof[ix(a)].pkg],
         nm   |-> [a \in A |-> prof[ix(a)].nm],
         vals |-> [a \in A |-> prof[ix(a)].vals],
-        refs |-> [a \in A |-> CASE ix(a) = 1 -> {} [] ix(a) = 2 -> r21 [] OTHER -> r31 \cup r32],
+        refs |-> [a \in A |-> rf[ix(a)]],
         fb   |-> [a \in A |-> fb[ix(a)]]]
+(* three algorithms: the references declared by 2 on 1, 3 on 1, 3 on 2 *)
+Mk(prof, r21, r31, r32, fb) == MkN(prof, << {}, r21, r31 \cup r32 >>, fb)
 
 (* feedback options: none; a <= c by value; a <= c by state vector and b <= c by value (a value
-   with two consumers when the state vector holds it); a <= b by state vector *)
+   with two consumers when the state vector holds it); a <= b by state vector; and a feedback
+   reference that points backwards (c asks for a value of a) *)
 NoFb == <<{}, {}, {}>>
 FbOptions(prof) ==
     { NoFb,
       << {Atom(prof[3], "val")}, {}, {} >>,
       << {Atom(prof[3], "sv")}, {Atom(prof[3], "val")}, {} >>,
-      << {Atom(prof[2], "sv")}, {}, {} >> }
+      << {Atom(prof[2], "sv")}, {}, {} >>,
+      << {}, {}, {Atom(prof[1], "val")} >> }                      \* the other way round: c <= a
 
 Family(prof, GG, FB) ==
     { Mk(prof, r21, r31, r32, fb) :
@@ -86,16 +92,33 @@ Kinds3 == Kinds \X Kinds \X Kinds
 KindsFew == { <<"task", "task", "task">>, <<"analysis", "analysis", "analysis">>, <<"regress", "regress", "regress">>,
               <<"task", "analysis", "regress">>, <<"regress", "task", "analysis">>, <<"analysis", "regress", "task">> }
 
-(* quick: 5^3 reference structures x 2 feedback options on P1 (250) + kinds/packagings (44+...) *)
+(* depth: four algorithms in a chain a -> b -> c -> d (the only way to an ancestor three edges
+   away) in every combination of single granularities, with d fed back to a; and the diamond
+   a -> {b, c} -> d at algorithm / value granularity *)
+P4 == << Alg("t0", "a", "task", S21, "s", <<"r", "v">>),
+         Alg("t1", "b", "task", S12, "s", <<"s", "w">>),
+         Alg("t0", "c", "regress", S11, "s", <<"s", "v">>),
+         Alg("t2", "d", "analysis", S12, "s", <<"s", "v">>) >>
+One(i, G) == { { Atom(P4[i], gran) } : gran \in G }
+DeepFamily ==
+    { MkN(P4, << {}, r21, r32, r43 >>, << {Atom(P4[4], "val")}, {}, {}, {} >>) :
+        r21 \in One(1, Grans), r32 \in One(2, Grans), r43 \in One(3, Grans) }
+    \cup
+    { MkN(P4, << {}, r21, r31, r42 \cup r43 >>, << {}, {}, {}, {} >>) :
+        r21 \in One(1, {"alg", "val"}), r31 \in One(1, {"alg", "val"}), r42 \in One(2, {"alg", "val"}), r43 \in One(3, {"alg", "val"}) }
+
+(* quick: 5^3 reference structures x 3 feedback options on P1 (375) + kinds/packagings (44) + depth (43) *)
 ProgramsQuick(dummy) ==
-    Family(P1, QuickSubsets, { NoFb, << {Atom(P1[3], "val")}, {}, {} >> })
+    Family(P1, QuickSubsets, { NoFb, << {Atom(P1[3], "val")}, {}, {} >>, << {Atom(P1[3], "sv")}, {Atom(P1[3], "val")}, {} >> })
     \cup KFamily(KindsFew, { <<"t0", "t1", "t2">> })
     \cup KFamily({ <<"task", "analysis", "regress">> }, Partitions)
-(* thorough: 8^3 x 4 on two profiles (4096) + 27 kind assignments x 5 packagings x 4 shapes (540) *)
+    \cup DeepFamily
+(* thorough: 8^3 x 5 on two profiles (5120) + 27 kind assignments x 5 packagings x 4 shapes (540) + depth (43) *)
 ProgramsThorough(dummy) ==
     Family(P1, AllSubsets, FbOptions(P1))
     \cup Family(P2, AllSubsets, FbOptions(P2))
     \cup KFamily(Kinds3, Partitions)
+    \cup DeepFamily
 (* (TLC evaluates every zero-arity definition at start-up: the families take a dummy argument) *)
 ProgramsOfTier == IF Tier = "thorough" THEN ProgramsThorough(0) ELSE ProgramsQuick(0)
 =============================================================================
